@@ -257,7 +257,7 @@ Lemma keypath_full : forall cfg k d, keypath cfg k d -> (lenN (enc_key cfg k) <=
   exists cs, d = f_base cfg ++ cs ++ [enc_key cfg k] /\ length cs = shard_depth (f_shard cfg) /\
              Forall plain cs /\ path_ok (cs ++ [enc_key cfg k]).
 Proof.
-  intros cfg k d [P [L E]] S. unfold path_for_key in E.
+  intros cfg k d [_ [P [L E]]] S. unfold path_for_key in E.
   destruct (shard_apply_spec (f_shard cfg) (enc_key cfg k) L) as [cs [E2 [L2 F]]].
   rewrite E2 in E.
   assert (FP : Forall plain cs).
